@@ -177,7 +177,7 @@ func TestWorker(t *testing.T) {
 		wdStart.Store(time.Now().UnixNano())
 		o := runOnce(eng, rc)
 		wdStart.Store(0)
-		emit(map[string]interface{}{"type": "replay", "class": o.Class, "key": o.Key, "message": o.Msg, "extra": o.Extra})
+		emit(map[string]interface{}{"type": "replay", "class": o.Class, "key": o.Key, "message": o.Msg, "extra": o.Extra, "detail": o.Detail})
 		return
 	}
 
